@@ -59,7 +59,11 @@ func (f *fsrc) Name() string { return f.name }
 func (f *fsrc) Close() error {
 	f.mu.Lock()
 	f.closes++
+	first := f.closes == 1
 	f.mu.Unlock()
+	if first && f.c.Choose("source.Close:"+f.name, 2) == 1 {
+		return errSource
+	}
 	return nil
 }
 func (f *fsrc) Read(p []byte) (int, error) {
